@@ -299,6 +299,11 @@ class PrecipitateModel (PrecipitateBase):
                     self.pData.xEqAlpha[self.pData.n,p] = c_eq_alpha
                     self.pData.xEqBeta[self.pData.n,p] = c_eq_beta
 
+        #The copy of the slice was taken before the equilibrium compositions were written (the impingement rate of
+        #    setBetaBinary(2) divides by them)
+        Y.xEqAlpha[0] = self.pData.xEqAlpha[self.pData.n]
+        Y.xEqBeta[0] = self.pData.xEqBeta[self.pData.n]
+
         x = [self.PBM[p].PSD for p in range(len(self.phases))]
         Y = self._calcNucleationRate(self.pData.time[self.pData.n], x, Y)
         #Zero growth rate as the 'previous value' in case the first growth rate calculation fails
